@@ -12,7 +12,8 @@ checks, na = [], []
 for p in props:
     pid = p["id"]
     path = os.path.join(ROOT, "rv", "props", f"{pid}.py")
-    if not os.path.exists(path):
+    ready = open(os.path.join(ROOT, "rv", "props", "READY")).read().split()
+    if not os.path.exists(path) or pid not in ready:
         na.append({"property_id": pid, "reason": "monitor designed (DESIGN.md section 4) but not built yet - work in progress, not a limit of the technique"})
         continue
     src = open(path).read()
